@@ -245,13 +245,14 @@ package formula
 // String literals (C13), written from the statement. At a backslash at p, escNext is where the
 // escape ends and escOut the text it stands for: \0 \b \t \n \v \f \r \' \" and \\ (any other
 // character stands for itself), \xHH and \uHHHH the code point's UTF-8 encoding. A backslash
-// followed by a line break (a line continuation) is outside the statement: contNext/contOut
-// only name what the code does there.
+// followed by a line break is a line continuation: it stands for nothing and ends after that one
+// line break (CR LF counting as one) - anything more would swallow text, or a raw line break
+// that leaves the literal open.
 //@ spec isLB(c int) bool := c == 10 || c == 13 || c == 8232 || c == 8233 || c == 133
 //@ spec isCont(c int) bool := c == 10 || c == 13 || c == 8232 || c == 8233
 //@ spec c1(t string, p int) int := urune(t[p+1:])
-//@ spec contNext(t string, p int) int
-//@ spec contOut(t string, p int) string
+//@ spec contNext(t string, p int) int := c1(t, p) == 13 ? ((p + 2 < len(t) && t[p+2] == 10) ? p + 3 : p + 2) : p + 1 + usize(t[p+1:])
+//@ spec contOut(t string, p int) string := ""
 //@ spec escNext(t string, p int) int := p + 1 >= len(t) ? p + 1 : (c1(t, p) == 'u' ? hexRun(t, p + 2, 4) : (c1(t, p) == 'x' ? hexRun(t, p + 2, 2) : (isCont(c1(t, p)) ? contNext(t, p) : p + 1 + usize(t[p+1:]))))
 //@ spec escOut(t string, p int) string := p + 1 >= len(t) ? "" : (c1(t, p) == '0' ? unit(0) : (c1(t, p) == 'b' ? unit(8) : (c1(t, p) == 't' ? unit(9) : (c1(t, p) == 'n' ? unit(10) : (c1(t, p) == 'v' ? unit(11) : (c1(t, p) == 'f' ? unit(12) : (c1(t, p) == 'r' ? unit(13) : (c1(t, p) == 'u' ? hexOut(t, p + 2, 4) : (c1(t, p) == 'x' ? hexOut(t, p + 2, 2) : (isCont(c1(t, p)) ? contOut(t, p) : utf8enc(c1(t, p))))))))))))
 
@@ -263,7 +264,7 @@ package formula
 //@   ensures[C14,C02] lbf(s) == old(lbf(s))
 //@   ensures scanFrame(s) && s.pos > old(s.pos) && nd(s) >= old(nd(s))
 //@   ensures[C13] old(s.pos) + 1 >= s.end || !isCont(c1(s.text, old(s.pos))) ==> s.pos == escNext(s.text, old(s.pos)) && result == escOut(s.text, old(s.pos))
-//@   defines old(s.pos) + 1 < s.end && isCont(c1(s.text, old(s.pos))) ==> s.pos == contNext(s.text, old(s.pos)) && result == contOut(s.text, old(s.pos))
+//@   ensures[C13] old(s.pos) + 1 < s.end && isCont(c1(s.text, old(s.pos))) ==> s.pos == contNext(s.text, old(s.pos)) && result == contOut(s.text, old(s.pos))
 
 // strV(t, a, p, q): the text the rest of a literal stands for, where the bytes t[a:p] are plain
 // characters already passed, from p up to the closing quote q, a line break or the end of the
